@@ -17,6 +17,15 @@ MCOps == {"insert", "try_insert", "get", "get_entry", "get_lru", "touch", "peek"
           "reserve", "try_reserve", "shrink_to", "shrink_to_fit", "len", "is_empty",
           "current_size", "max_size", "capacity", "debug", "new", "drop"}
 
+(* MC_Tomb: probe group width scaled down to 2, so that tombstones (which  *)
+(* native tables only have from 32 buckets) exist in 4- and 8-bucket tables *)
+TKHeaps == {0}
+TVSizes == {0}
+TLimits == {UMAX}
+TAddl   == {0, 2, 3}
+TOps    == {"insert", "get", "remove", "remove_lru", "reserve", "shrink_to", "shrink_to_fit",
+            "clear", "new", "drop"}
+
 (* quick tier: halved constants *)
 QLimits   == {0, O + 1, 2 * O + 3, UMAX}
 QVSizes   == {0, 3}
